@@ -211,9 +211,16 @@ fn run_c19(ctx: &mut Ctx, rep: &mut Report) {
         }
 
         // Leg 2: keepalive the kernel rejects (no hooks involved) and an accepted value as control.
+        let mut refused_with_rejected_keepalive: Option<Vec<String>> = None;
         for (ka, expect_fail) in [(40_000u64, true), (600u64, false)] {
             let mut srv = match start_two_listener_server(ctx, Some(Duration::from_secs(ka)), false, 0) {
-                Ok(s) => s, Err(e) => { rep.note(format!("server start failed, round skipped: {e}")); rep.count("server_start_failures", 1); std::thread::sleep(Duration::from_millis(200)); continue }
+                Ok(s) => s,
+                Err(e) => {
+                    // with the rejected keepalive value a listener that does not even come up is judged against the control
+                    if expect_fail && e.contains("rtr_listener") { refused_with_rejected_keepalive = Some(vec![format!("server start: {e}")]); }
+                    else { rep.note(format!("server start failed, round skipped: {e}")); rep.count("server_start_failures", 1); refused_with_rejected_keepalive = None; }
+                    std::thread::sleep(Duration::from_millis(200)); continue
+                }
             };
             if srv.install(&hooks, &Model::rand(&mut rng)).is_err() { rep.inconclusive("update failed"); return }
             let a = srv.rtr_addr;
@@ -233,12 +240,22 @@ fn run_c19(ctx: &mut Ctx, rep: &mut Report) {
                         "rtr-tcp-keepalive {ka}s is rejected by the kernel: the first connection was closed, the following three were never accepted/closed ({:?})", outcomes),
                         json!({"leg": "keepalive", "keepalive": ka, "outcomes": outcomes}));
                 }
+                else if outcomes.iter().all(|o| *o == "error") {
+                    // nothing listens at all: judged against the control below (same harness, accepted keepalive value)
+                    refused_with_rejected_keepalive = Some(outcomes.iter().map(|s| s.to_string()).collect::<Vec<_>>());
+                }
                 else if outcomes.iter().any(|o| *o == "timeout") {
                     rep.inconclusive(format!("keepalive leg: mixed outcomes {:?}", outcomes));
                 }
             }
             else if outcomes.iter().any(|o| *o != "answered") {
                 rep.inconclusive(format!("control keepalive {ka}: outcomes {:?}", outcomes));
+                refused_with_rejected_keepalive = None;
+            }
+            else if let Some(o) = refused_with_rejected_keepalive.take() {
+                rep.violation("C19/listener-not-accepting-with-rejected-keepalive", format!(
+                    "rtr-tcp-keepalive 40000s is rejected by the kernel for every connection: the RTR listener does not accept connections at all (connect errors {:?}) while the same server with keepalive {ka}s answers", o),
+                    json!({"leg": "keepalive", "keepalive": 40000, "outcomes": o}));
             }
         }
     }
